@@ -1,3 +1,3 @@
 /// spec 5.4 Arguments (+ 5.6 Values): the arguments supplied at one site are valid for the argument definitions.
 /// Uninterpreted until unit `args` defines and proves it on check_arguments.
-pub uninterp spec fn args_valid<'src, S>(sch: &Schema<S, Pos>, vars: Option<&VariablesDefinition<'src>>, args: Option<Arguments<'src>>, defs: Seq<InputValue<S, Pos>>) -> bool;
+pub uninterp spec fn args_valid<'src, S>(sch: &Schema<S, Pos>, vars: Option<&VariablesDefinition<'src>>, args: Option<&Arguments<'src>>, defs: Seq<InputValue<S, Pos>>) -> bool;
